@@ -77,7 +77,8 @@ def rule_escape(ctx):
     pol = _inline(p)
     for target in ("VT", "VN", "VS", "VB", "VL", "NOPE"):
         for mk in KINDS:
-            for children in lists_for[mk]:
+            variants = [(ch, "opaque") for ch in lists_for[mk]] + [(ch, "none") for ch in lists_for[mk] if 0 < len(ch) <= 2]
+            for children, valmode in variants:
                 n += 1
 
                 def run(it: Interp):
@@ -85,7 +86,8 @@ def rule_escape(ctx):
                     it.vecs = vecs
                     kids = []
                     for i, c in enumerate(children):
-                        attrs = {"name": Const(c), "value": Term("param", f"text{i}", pytype="str"), "__closed__": Const(True)}
+                        # an element with an empty body parses to value=None
+                        attrs = {"name": Const(c), "value": Term("param", f"text{i}", pytype="str") if valmode == "opaque" else Const(None), "__closed__": Const(True)}
                         if mk == "BLOB":
                             attrs["size"] = Term("param", f"size{i}", pytype="str")
                             attrs["format"] = Term("param", f"format{i}", pytype="str")
@@ -95,7 +97,7 @@ def rule_escape(ctx):
 
                 paths = explore(p, run, {"inline": pol, "assert_forks": True, "call_may_raise": _raiser, "max_depth": 10, "max_for": 1}, max_paths=60000)
                 ctx.paths_enumerated += len(paths)
-                row = f"new{mk}Vector -> {target} ({kind_of.get(target, 'unknown property')}) children={children}"
+                row = f"new{mk}Vector -> {target} ({kind_of.get(target, 'unknown property')}) children={children}" + (" with empty bodies (value=None)" if valmode == "none" else "")
                 for pa in paths:
                     if pa.outcome == "raise":
                         raises = [e for e in pa.events if e.kind == "raise"]
